@@ -324,8 +324,31 @@ func main() {
 					case *ast.GoStmt:
 						// go f(a, b)  ->  zzsimsched.Go(site, func() { f(a, b) }) with the arguments evaluated now
 						callee := "func"
-						if _, isLit := n.Call.Fun.(*ast.FuncLit); !isLit {
+						if lit, isLit := n.Call.Fun.(*ast.FuncLit); !isLit {
 							callee = types.ExprString(n.Call.Fun)
+						} else {
+							// a function literal that loops for ever or waits on channels is a service loop
+							ast.Inspect(lit.Body, func(x ast.Node) bool {
+								switch y := x.(type) {
+								case *ast.ForStmt:
+									if y.Cond == nil {
+										callee = "func-loop"
+									}
+								case *ast.SelectStmt:
+									callee = "func-loop"
+								case *ast.UnaryExpr:
+									if y.Op == token.ARROW {
+										callee = "func-loop"
+									}
+								case *ast.RangeStmt:
+									if tv, ok := p.TypesInfo.Types[y.X]; ok {
+										if _, isChan := tv.Type.Underlying().(*types.Chan); isChan {
+											callee = "func-loop"
+										}
+									}
+								}
+								return true
+							})
 						}
 						site := fmt.Sprintf("%s:%d:%s", rel, p.Fset.Position(n.Pos()).Line, callee)
 						var pre []ast.Stmt
